@@ -6,6 +6,7 @@ props = [json.loads(l) for l in open(os.path.join(V, "properties.jsonl"))]
 
 ENGINES = {
  "task": ("harness/task.cpp", "exhaustive ordering enumerator on the real promise/task under ASan/UBSan/LSan with counters"),
+ "codec": ("harness/codec.cpp", "registry of 125 parse/toXml pairs of the library; DOM mutators, transparent-position probing, canonical comparison; under ASan/UBSan"),
  "sasl": ("harness/sasl.cpp", "SaslManager / Sasl2Manager / QXmppSaslClient behind a mock SendDataInterface, driven by JSON lines; Python reference choice function and RFC implementations"),
  "stun": ("harness/stun.cpp", "QXmppStunMessage encode/decode + HMAC/CRC helpers driven by JSON lines; Python hmac/zlib oracle"),
 }
@@ -27,6 +28,14 @@ CHECKS["C06"] = dict(engine="sasl", cat="exploration",
    text="Python implementations of RFC 5802/7677, 2831, 4616 and XEP-0484 generate complete exchanges (honest, 15 corrupted SCRAM server variants, DIGEST-MD5 variants, re-logins of the same account with another password in one process) that are replayed on the real mechanism objects byte for byte; 10 server message sequences through SaslManager/Sasl2Manager decide 'success reported => valid server signature was delivered'",
    note="Python hashlib/hmac/stringprep trusted; credentials restricted to SASLprep-identity strings; DIGEST-MD5 ISO 8859-1 re-encoding rule not judged",
    tech="runtime monitoring: differential oracle (independent Python RFC implementations) + misbehaving-server sequences, under ASan/UBSan")
+CHECKS["C01"] = dict(engine="codec", cat="exploration",
+   text="(0) scalar helpers: exhaustive 8/16-bit integer round trips, boundaries of 32/64-bit, booleans, base64 of every length, 40000 date-times, all minute offsets; (2,3) for every (seed document incl. every sub-element, registered type) pair the type admits: the library's own output must be admitted by the type's own check and survive parse->serialize unchanged up to order; every text/attribute position is probed with two benign tokens - free-text positions must round-trip 4 hostile values verbatim with an unchanged element skeleton, typed positions must at least give stable, self-admitted output",
+   note="seeds come from the repository's tests plus hand seeds; field combinations are those of the seeds (DOM-level presence mutations are part of C02); setter-built objects only for QXmppMessage (C17 check)",
+   tech="runtime monitoring: self-consistency oracle (round trip, canonical comparison, skeleton invariant) over generated documents, under ASan/UBSan")
+CHECKS["C02"] = dict(engine="codec", cat="exploration",
+   text="seed documents mutated at DOM level by 16 operators (delete/duplicate/reorder/move/re-namespace/strip/empty/hostile numbers, enums, strings/deep nesting/huge text/cross-breeding/rename/unknown children/many siblings); every one of the 125 registered parsers is applied to every element its own type check admits (untyped parsers to all) under ASan+UBSan with a per-application watchdog and RSS limit; output must be well-formed and ser(parse(ser(parse(d)))) == ser(parse(d))",
+   note="nesting depth <= 300 quick / 2000 thorough, text <= 64 KiB quick / 1 MiB thorough; uninitialised reads are out of ASan/UBSan's reach; the connected-client half is exercised by the wire engine checks",
+   tech="runtime monitoring: sanitizers (ASan/UBSan) + watchdog + fixpoint oracle over structure-aware mutation fuzzing")
 REASON_TODO = "check not built yet in this session (planned, see DESIGN.md §2)"
 
 def main():
